@@ -1311,6 +1311,29 @@ where
                 refuse(ctx, &id, "check-missing-evaluation", o.accepted(), "an evaluation is missing".into());
             }
         }
+        // (4b) a query naming an unknown linear combination
+        {
+            let (lcs, qs, ev) = gen_lcs::<S>(&mut rng, &inst, 1, 1);
+            let mut sp = fresh_sponge();
+            if let Ok(Ok(proof)) = guarded(|| S::PC::open_combinations(&inst.ck, &lcs, &inst.polys, &inst.comms, &qs, &mut sp, &inst.states, Some(&mut rng.clone()))) {
+                let (_, (pl0, pt0)) = qs.iter().next().cloned().unwrap();
+                let mut qs_u = qs.clone();
+                qs_u.insert(("nosuchlc".to_string(), (pl0.clone(), pt0.clone())));
+                let mut ev_u = ev.clone();
+                ev_u.insert(("nosuchlc".to_string(), pt0.clone()), Fr::rand(&mut rng));
+                let mut vs = fresh_sponge();
+                let o = Outcome::from(guarded(|| S::PC::check_combinations(&inst.vk, &lcs, &inst.comms, &qs_u, &ev_u, &proof, &mut vs, &mut rng.clone())));
+                refuse(ctx, &id, "check-unknown-combination", o.accepted(), "verifier query names a linear combination that was not supplied".into());
+                let mut sp2 = fresh_sponge();
+                let r = guarded(|| S::PC::open_combinations(&inst.ck, &lcs, &inst.polys, &inst.comms, &qs_u, &mut sp2, &inst.states, Some(&mut rng.clone())));
+                // the prover may answer (the query is skipped) only if the verifier then refuses it
+                if let Ok(Ok(p2)) = r {
+                    let mut vs = fresh_sponge();
+                    let o2 = Outcome::from(guarded(|| S::PC::check_combinations(&inst.vk, &lcs, &inst.comms, &qs_u, &ev_u, &p2, &mut vs, &mut rng.clone())));
+                    refuse(ctx, &id, "open-unknown-combination", o2.accepted(), "prover and verifier both answered a query for an unknown linear combination".into());
+                }
+            }
+        }
         // (5) wrong number of variables
         if let Some(nv) = sizes.num_vars {
             let wrong = Sizes { num_vars: Some(nv + 1), ..sizes.clone() };
